@@ -50,7 +50,7 @@ def reqOk (o : ReqObs) : Bool :=
      (dst? e o.before != none || (!o.ranOwnHooksOrBody && !o.okResult)) &&   -- illegal ⇒ inert and refused
      (o.okResult || o.notFound || o.after == .ERROR)                            -- failed API request ⇒ ERROR
    | .try_ e _ _ => dst? e o.before != none || (!o.ranOwnHooksOrBody && !o.okResult && o.after == o.before)
-   | .teardown .. => o.okResult == (o.after == .DONE && o.gone) || o.notFound) &&
+   | .teardown .. => !o.okResult || (o.after == .DONE && o.gone) || o.notFound) &&
   (!o.gone || o.after == .DONE)
 
 /-- Split an observed trace into per-request segments (each ends with its reqEnd). -/
